@@ -59,7 +59,8 @@ fn small_key() -> BoxedStrategy<Vec<u8>> {
         prop::sample::select(vec![
             b"a".to_vec(), b"comment".to_vec(), b"created by".to_vec(), b"encoding".to_vec(), b"inf".to_vec(), b"infn".to_vec(),
             b"info2".to_vec(), b"infp".to_vec(), b"zz".to_vec(), b"url-list".to_vec(), b"nodes".to_vec(), b"Info".to_vec(),
-            vec![0xff, 0x01], b"creation date".to_vec(), b"b".to_vec(), b"j".to_vec(),
+            vec![0xff, 0x01], b"creation date".to_vec(), b"b".to_vec(), b"j".to_vec(), b"4:info".to_vec(), b"dht4:info".to_vec(), b"x4:info".to_vec(),
+            b"infoinfo".to_vec(), b"info\x00".to_vec(), b"INFO".to_vec(), b"4:infoz".to_vec(), b":info".to_vec(),
         ]),
         bytes_strategy(6),
     ]
